@@ -304,7 +304,11 @@ class ES(Inverter):
             return None
         if OperationMode.ECO != mode:
             return mode
-        eco_mode = await self.read_setting('eco_mode_1')
+        try:
+            eco_mode = await self.read_setting('eco_mode_1')
+        except ValueError:
+            # the first eco mode group holds no valid schedule, so it is none of the emulated modes
+            return OperationMode.ECO
         if eco_mode.is_eco_charge_mode():
             return OperationMode.ECO_CHARGE
         if eco_mode.is_eco_discharge_mode():
